@@ -1204,6 +1204,9 @@ class Interp:
         if isinstance(v, A.Arr) and v.shape == () :
             return v.get(())
         if isinstance(v, Ref) and v.kind == "list":
+            c = v.content
+            if not isinstance(c, A.SeqVal) and any(isinstance(x, str) for x in c):
+                return v          # list of labels (DataFrame column selection), not an index array
             return A.from_nested(self.to_py(v))
         return v
 
